@@ -63,7 +63,7 @@ mut("c03-pack-label-64", "C03", "msg.go", "			labelLen := i - begin\n			if label
 mut("c03-isdomainname-label-64", "C03", "defaults.go", "			if labelLen >= 1<<6 { // top two bits of length must be clear\n				return labels, false", "			if labelLen > 1<<6 { // top two bits of length must be clear\n				return labels, false", "IsDomainName accepts a 64-octet label")
 mut("c03-special-set", "C03", "types.go", "	case '.', ' ', '\\'', '@', ';', '(', ')', '\"', '\\\\':\n		return true", "	case ' ', '\\'', '@', ';', '(', ')', '\"', '\\\\':\n		return true", "a dot inside a label is no longer escaped on output")
 mut("c03-escapebyte-large", "C03", "types.go", "	b -= '~' + 1\n", "	b -= '~'\n", "\\DDD table index off by one for octets above 0x7e")
-mut("c03-isfqdn-parity", "C03", "defaults.go", "	return (len(s)-i)%2 != 0\n}", "	return (len(s)-i)%2 == 0\n}", "IsFqdn parity of trailing backslashes inverted")
+mut("c03-isfqdn-parity", "C03", "defaults.go", "	return (len(s)-1-i)%2 == 0\n}", "	return (len(s)-1-i)%2 != 0\n}", "IsFqdn parity of trailing backslashes inverted")
 mut("c03-isdomainname-budget", "C03", "defaults.go", "	const lenmsg = maxDomainNameWireOctets - 1 // the root label takes the last octet", "	const lenmsg = maxDomainNameWireOctets", "IsDomainName accepts 256 octets again")
 
 # ---- C16
